@@ -74,6 +74,11 @@ def run(chk):
         for c in sv.two_handler_restart_cases(tprog, wd, finished_first=ff):
             items.append(("pipeline x2/%s first/%s run" % ("finished" if ff else "unfinished", c["role"]), tprog, (), [c],
                           [["two_runs", "crash_after_final_tick_of", "h1" if ff else "h2"]]))
+    # ... and the same with the OTHER run's tick log unreplayable (the run that has just ended must still be finalised)
+    for ff in (True, False):
+        for c in sv.two_handler_restart_cases(tprog, wd, finished_first=ff, corrupt_other=True):
+            items.append(("pipeline x2/%s first/%s run next to an unreplayable log" % ("finished" if ff else "unfinished", c["role"]),
+                          tprog, (), [c], [["two_runs", "crash_after_final_tick_of", "h1" if ff else "h2"], ["other_log_corrupt"]]))
     chk.add(crash_points=len(items))
     eg.standard_run(chk, "C13", None, {"case"}, items=items, key_of=key_of, conform=False,
                     nontrivial=lambda tr: not tr[0]["prefix_ends_run"])
